@@ -111,7 +111,7 @@ func (b *us902Band) GetEnabledUplinkChannelIndicesForLinkADRReqPayloads(deviceEn
 	for _, c := range deviceEnabledChannels {
 		// make sure that we don't exceed the chMask length. in case we exceed
 		// we ignore the channel as it might have been removed from the network
-		if c < len(chMask) {
+		if c >= 0 && c < len(chMask) {
 			chMask[c] = true
 		}
 	}
